@@ -467,6 +467,15 @@ func TestC11_FirstUse(t *testing.T) {
 		want := rank(twin, twin.SearchUniversal(q, opt))
 		path := gen.WriteDB(t, cmds)
 		defer os.Remove(path)
+		// some fresh instances come from main + notebook files (the way the CLI loads), not from one file
+		split := -1
+		mainPath, notebookPath := "", ""
+		if len(cmds) >= 2 && rapid.Bool().Draw(t, "with-notebook") {
+			split = rapid.IntRange(1, len(cmds)-1).Draw(t, "split")
+			mainPath, notebookPath = gen.WriteDB(t, cmds[:split]), gen.WriteDB(t, cmds[split:])
+			defer os.Remove(mainPath)
+			defer os.Remove(notebookPath)
+		}
 		g := rapid.IntRange(2, 16).Draw(t, "goroutines")
 		each := rapid.IntRange(1, 3).Draw(t, "each")
 		procs := rapid.SampledFrom([]int{2, 4, 16}).Draw(t, "gomaxprocs")
@@ -475,6 +484,9 @@ func TestC11_FirstUse(t *testing.T) {
 		rounds := 25
 		for round := 0; round < rounds; round++ {
 			db, err := database.LoadDatabase(path) // freshly loaded: nothing has been searched on it yet
+			if split >= 0 {
+				db, err = database.LoadDatabaseWithPersonal(mainPath, notebookPath)
+			}
 			if err != nil {
 				t.Fatalf("harness: %v", err)
 			}
@@ -548,7 +560,7 @@ func TestC11_OptionTwins(t *testing.T) {
 		if rapid.IntRange(0, 3).Draw(t, "typo-query") == 0 {
 			q = asciiOnly(gen.Typo(t, tok.Draw(t, "typo-word")))
 		}
-		pool := c05Options(t, toks)
+		pool := c11TwinOptions(toks)
 		spell := []string{q, strings.ToUpper(q), strings.ToLower(q)}
 		want := make([][3][]rankItem, len(pool))
 		for i, o := range pool {
@@ -865,4 +877,33 @@ func TestC11_SweepContention(t *testing.T) {
 		}
 		rec.Case(true, map[string]any{"sweep_contention": true, "capacity": capacity, "ttl": ttl.String(), "mode": mode}, "sweep-contention", "sweep-mode:"+mode)
 	})
+}
+
+// c11TwinOptions: a base option set and one-field deltas of it in every field.
+func c11TwinOptions(words []string) []database.SearchOptions {
+	base := database.SearchOptions{Limit: 5, UseNLP: true, UseFuzzy: true}
+	w := func(i int) string { return words[i%len(words)] }
+	mk := func(f func(o *database.SearchOptions)) database.SearchOptions {
+		o := base
+		f(&o)
+		return o
+	}
+	return []database.SearchOptions{
+		base,
+		mk(func(o *database.SearchOptions) { o.Limit = 2 }),
+		mk(func(o *database.SearchOptions) { o.Limit = 0 }),
+		mk(func(o *database.SearchOptions) { o.ContextBoosts = map[string]float64{w(0): 3} }),
+		mk(func(o *database.SearchOptions) { o.ContextBoosts = map[string]float64{w(1): 3} }),
+		mk(func(o *database.SearchOptions) { o.PipelineOnly = true }),
+		mk(func(o *database.SearchOptions) { o.PipelineBoost = 2 }),
+		mk(func(o *database.SearchOptions) { o.UseFuzzy = false }),
+		mk(func(o *database.SearchOptions) { o.FuzzyThreshold = 40 }),
+		mk(func(o *database.SearchOptions) { o.UseNLP = false }),
+		mk(func(o *database.SearchOptions) { o.TopTermsCap = 1 }),
+		mk(func(o *database.SearchOptions) { o.AllPlatforms = true }),
+		mk(func(o *database.SearchOptions) { o.Platforms = []string{"windows"} }),
+		mk(func(o *database.SearchOptions) { o.Platforms = []string{"macos"} }),
+		mk(func(o *database.SearchOptions) { o.NoCrossPlatform = true }),
+		mk(func(o *database.SearchOptions) { o.Platforms = []string{"windows"}; o.NoCrossPlatform = true }),
+	}
 }
